@@ -627,7 +627,9 @@ func setField(tokens []lexer.Token, strct reflect.Value, field structLexerField,
 	}
 
 	if f.Type() == tokenType {
-		f.Set(reflect.ValueOf(tokens[0]))
+		if len(tokens) > 0 {
+			f.Set(reflect.ValueOf(tokens[0]))
+		}
 		return nil
 	}
 
